@@ -118,6 +118,8 @@ def run(repo, rep):
                 for e_, s_ in writes:
                     buf = e_.args[0] if e_.args else '?'
                     got = [s_.field('EXT:' + buf, 'is_implicit_VR'), s_.field('EXT:' + buf, 'is_little_endian')]
+                    # (the writer only asks for the truth of its flags: bool(x) carries x)
+                    got = [g_[5:-1] if isinstance(g_, str) and g_.startswith('bool(') and g_.endswith(')') else g_ for g_ in got]
                     if got != [iv, le]:
                         probs.append('writer flags are set from %s / %s' % (got[0], got[1]))
         rep.check(not probs, 'C08.M0', 'dsutils:%s:flag-wiring' % fname, f.loc(),
